@@ -119,8 +119,8 @@ def build(kind, n, edges, pts=None, how=0, weights=None):
     """kind: U / D abstract, PU / PD point-carrying.  how: 0 adjacency csr, 1 dense ndarray, 2 init_from_edges."""
     import menpo.shape as ms
     directed = kind in ("D", "PD")
-    if weights is not None:
-        how = how % 2
+    if weights is not None and how == 2:
+        how = 0
     earr = np.array(edges, dtype=int).reshape(-1, 2)
     if how == 2:
         if kind == "U":
@@ -130,7 +130,11 @@ def build(kind, n, edges, pts=None, how=0, weights=None):
         if kind == "PU":
             return ms.PointUndirectedGraph.init_from_edges(pts, earr if len(edges) else None)
         return ms.PointDirectedGraph.init_from_edges(pts, earr if len(edges) else None)
-    a = gen.adjacency(n, edges, not directed, weights=weights, dense=(how == 1))
+    ghosts = None
+    if how == 3:
+        # a sparse matrix that stores a few zeros explicitly (an edge deleted by A[i, j] = 0): those are not edges
+        ghosts = [(i, (i * 7 + 3) % n) for i in range(0, n, 3) if i != (i * 7 + 3) % n]
+    a = gen.adjacency(n, edges, not directed, weights=weights, dense=(how == 1), stored_zeros=ghosts)
     if kind == "U":
         return ms.UndirectedGraph(a)
     if kind == "D":
@@ -182,6 +186,21 @@ def judge_structure(ctx, g, n, edges, directed, cls):
     return E
 
 
+def after_queries(ctx, g, n, edges, directed, cls, W):
+    ctx.tap("structure_after_queries", "calls")
+    nv = sum(v["count"] for v in ctx.violations.values())
+    judge_structure(ctx, g, n, edges, directed, cls)
+    if sum(v["count"] for v in ctx.violations.values()) > nv:
+        ctx.fail("queries_changed_what_the_graph_reports", cls=cls)
+    if W is not None:
+        a = np.asarray(g.adjacency_matrix.todense(), dtype=float)
+        for (u, v), w in W.items():
+            if abs(a[u, v] - w) > 0 or (not directed and abs(a[v, u] - w) > 0):
+                ctx.fail("queries_changed_an_edge_weight", cls=cls)
+                break
+    ctx.tap("structure_after_queries", "checked")
+
+
 def judge_cycles(ctx, g, n, E, directed, cls):
     exp = ref.has_cycle_directed(n, E) if directed else ref.has_cycle_undirected(n, E)
     got = bool(g.has_cycles())
@@ -198,6 +217,13 @@ def judge_cycles(ctx, g, n, E, directed, cls):
 
 
 def judge_paths(ctx, g, n, E, directed, cls, pairs, all_paths=True):
+    # asking about a vertex the graph does not have gives "no path" - and leaves nothing behind for later questions
+    for bogus in (n + 2, -1 - n):
+        try:
+            if list(g.find_all_paths(bogus, 0)) != []:
+                ctx.fail("find_all_paths_invented_a_path", cls=cls, mech="start_vertex_not_in_graph")
+        except (ValueError, IndexError):
+            pass
     for s, t in pairs:
         if s == t:
             continue
@@ -348,6 +374,11 @@ def w_exhaustive(ctx, rng, i):
             judge_masks(ctx, g, n, all_masks(n))
             if not np.array_equal(g.points, pts):
                 ctx.fail("points_changed", cls=cls)
+        elif not directed and E:
+            ncomp, _ = ref.components_undirected(n, E)
+            if ncomp == 1:
+                g.minimum_spanning_tree(int(i % n))
+        after_queries(ctx, g, n, edges, directed, cls, None)
     # every rooted tree hidden in this edge set: if the directed graph is an arborescence from some root, Tree must accept it
     if directed and len(edges) == n - 1 and n >= 2:
         import menpo.shape as ms
@@ -385,7 +416,7 @@ def w_random(ctx, rng, i):
         # keep antiparallel weights independent: that is a legitimate weighted digraph
         pass
     pts = gen.points(rng, n, 2)
-    g = build(kind, n, edges, pts, int(rng.integers(0, 3)), weights=weights if weighted else None)
+    g = build(kind, n, edges, pts, int(rng.integers(0, 4)), weights=weights if weighted else None)
     cls = type(g).__name__
     ctx.see("classes", cls)
     E = judge_structure(ctx, g, n, edges, directed, cls)
@@ -430,6 +461,8 @@ def w_random(ctx, rng, i):
                 ctx.fail("mst_weight_differs_from_kruskal", cls=cls, got=total, expected=kw)
             else:
                 judge_tree(ctx, t, n, canon_edges(te, True), root, type(t).__name__)
+    # every question asked above was a read-only query: the graph still reports the edges it was built from
+    after_queries(ctx, g, n, edges, directed, cls, W if weighted else None)
     ctx.count_case(("random", kind, n, len(E), weighted, i), nontrivial=len(E) >= 1,
                    sample={"kind": kind, "n": n, "n_edges": len(E), "weighted": weighted} if i < 3 else None)
 
